@@ -8,14 +8,34 @@ V = os.path.dirname(os.path.dirname(os.path.abspath(__file__)))
 PY = 'PYTHONHASHSEED=0 /venv/bin/python -m checks.run'
 
 # id: (engine, category, technique, level text, level note, design ref)
+E1_TECH = 'stateless deviation-bounded schedule exploration of the real ZMQSender/ZMQReceiver/MQ/Filter code over a simulated libzmq and virtual clock'
+E1_NOTE = 'libzmq and the clock are modelled (mc/simzmq.py, mc/sched.py; cross-checked against real pyzmq by conformance/, 24 cases, run by setup_cmd); exhaustive only up to the stated deviation bound, frame count, scenario family and horizon.'
+
 T = {
- 'C01': ('E1-simnet', 'model_checking',
-         'stateless deviation-bounded schedule exploration of the real ZMQSender/ZMQReceiver/MQ/Filter code over a simulated libzmq and virtual clock',
-         'Every schedule (process order, per-pipe message hold-back, timer-before-delivery) with at most d deviations from the default, for a completely enumerated scenario family, executes the real filters; the oracle checks every process() input for one message id / complete topic set / one ancestor.',
-         'libzmq and the clock are modelled (mc/simzmq.py, validated by conformance/ against real pyzmq); exhaustive only up to the stated deviation bound, frame count and scenario family.', '4 C01'),
+ 'C01': ('E1-simnet', 'model_checking', E1_TECH,
+         'Every schedule (process order, per-pipe message hold-back at every poll, timer-before-delivery) with at most d deviations from the default, for a completely enumerated family of topologies x behaviours x subscription forms, executes the real filters; the oracle checks every MQ.recv result and process() input for one message id, complete topic set per synchronized source, one ancestor.',
+         E1_NOTE, '4 C01'),
+ 'C02': ('E1-simnet', 'model_checking', E1_TECH,
+         'Order/duplication: all schedules with <= d deviations under arbitrary delays, plus a hard kill + restart of publisher, relay or consumer inserted at every scheduling point with several restart delays; content: every topic-set x payload-kind x subscription-spec combination through real sockets code, compared with a reference selection function.',
+         E1_NOTE, '4 C02'),
+ 'C03': ('E1-simnet', 'model_checking', E1_TECH,
+         'All timely schedules (message delay < 100 ms, runnable filter runs before the clock advances) with <= d deviations of a family of chains, tees, rejoins and joins with every process() behaviour; per-filter process() input list must equal a functional reference model, first frame included.',
+         E1_NOTE, '4 C03'),
+ 'C04': ('E1-simnet', 'model_checking', E1_TECH,
+         'Every stall position x stall start index x stall length x speed combination, all timely schedules with <= d deviations in the first 1100 ms; counts publishes of every upstream producer during the stall (<= 9, none later than 700 ms into it).',
+         E1_NOTE, '4 C04'),
+ 'C05': ('E1-simnet', 'model_checking', E1_TECH,
+         'Every mix of ? and ?? listeners (fast, slow, stalled, late, killed at every step) on a publisher with a synchronized sink: synchronized stream equals the listener-free reference model on every schedule with <= d deviations, identical virtual delivery times on the default schedule, no request traffic from ?? listeners, ephemeral sets complete and ordered.',
+         E1_NOTE, '4 C05'),
+ 'C06': ('E1-simnet', 'model_checking', E1_TECH,
+         'One hard kill of every filter of chain/tee/rejoin pipelines inserted at every scheduling point of the reference run with restart delays 0 / 300 ms / CONN_TIMEOUT+200 ms / never: every live synchronized sink must process a new frame within CONN_TIMEOUT + 5 poll intervals and keep doing so; order oracle throughout.',
+         E1_NOTE, '4 C06'),
+ 'C07': ('E1-simnet', 'model_checking', E1_TECH,
+         'Splitter with balanced outputs over 2-4 branches, workers of all speed combinations, balanced-sources joiner: all schedules with <= d deviations under arbitrary delays; each id on exactly one branch, rejoined stream duplicate-free, strictly increasing, one id per set.',
+         E1_NOTE, '4 C07'),
 }
 
-BUILT = ['C01']
+BUILT = ['C01', 'C02', 'C03', 'C04', 'C05', 'C06', 'C07']
 
 def main():
     checks = []
